@@ -17,10 +17,10 @@ theorem C19_saves_only_real_values_of_executed_nodes (c : Ctx) (s : St) (obs : L
     (below : List Frame) (v : Val) (executedHere : Bool) :
     nodePost c s obs d n below v executedHere =
       if executedHere && !v.isRecur && !v.isExc then
-        cbThen c (storeIf (recSpawn s d n v) executedHere n v)
+        cbCall c .save n (storeIf (recSpawn s d n v) executedHere n v)
           ((if v.isRecur then obs ++ [.spawn s.tasks.length (.recur n)] else obs) ++ [.save n v])
-          (fun j => .node d n false (.cbSave j) :: below) (c.P.cbYield .save n)
-          (fun s obs => nodeFinish c s obs d n below)
+          (fun j => .node d n false (.cbSave j) :: below)
+          (fun s obs => nodeFinish c s obs d n below) (fun e s obs => nodeCbRaise c s obs d n below e)
       else
         retTo c (nodeFinally c.P (storeIf (recSpawn s d n v) executedHere n v) d n (!v.isRecur))
           (if v.isRecur then obs ++ [.spawn s.tasks.length (.recur n)] else obs) below .none := by
